@@ -91,7 +91,7 @@ func (e *episode) sync() {
 		time.Sleep(2 * time.Millisecond) // already broken in this episode: do not wait again
 		return
 	}
-	ctx, cancel := context.WithTimeout(context.Background(), 2*time.Second)
+	ctx, cancel := context.WithTimeout(context.Background(), 300*time.Millisecond)
 	defer cancel()
 	if err := e.clock.BlockUntilContext(ctx, 1); err != nil {
 		e.noTimer++
@@ -301,7 +301,7 @@ func main() {
 		return
 	}
 	rng := hx.NewRng(a.Seed)
-	for run.NOps < a.N {
+	for run.NOps < a.N && !run.Enough() {
 		slotMs := []int64{12000, 12000, 6000, 2000, 1000}[rng.Intn(5)]
 		slotNs := slotMs * 1000000
 		spe := []int{32, 32, 16, 8, 4}[rng.Intn(5)]
